@@ -186,7 +186,8 @@ theorem conjRows_rel {n : Nat} {M : LMat α} {bits : List Nat} (hv : validBits n
         exact ⟨t3, by rw [ht2]; simp only [Res.bind]; rw [hs]; simp only [Res.bind]; exact ht3, hok⟩
     obtain ⟨t3, hstep, hrest⟩ := hsplit
     have hi : i < n := hlt i (List.mem_cons_self ..)
-    have hri : t.rows[i]? = some t.rows[i] := List.getElem?_eq_getElem (by rw [hsh.2.1]; exact hi)
+    have hil : i < t.rows.length := by rw [hsh.2.1]; exact hi
+    have hri : t.rows[i]? = some t.rows[i] := List.getElem?_eq_getElem hil
     obtain ⟨hsh3, ⟨r1, hr1, hrel⟩, hothers⟩ := conjRow_step_rel hv hM hrule t t3 i hi hsh _ hri
       (hlen i (List.mem_cons_self ..) _ hri) hstep
     obtain ⟨hsh1, hdone, hkeep⟩ := ih t3 t1 hnd'.2 (fun k hk => hlt k (List.mem_cons_of_mem _ hk)) hsh3
@@ -207,7 +208,7 @@ theorem conjRows_rel {n : Nat} {M : LMat α} {bits : List Nat} (hv : validBits n
 
 /-- a list of images under a total relation -/
 theorem exists_list_rel {β γ : Type} (R : β → γ → Prop) : ∀ (l : List β), (∀ a ∈ l, ∃ b, R a b) →
-    ∃ l' : List γ, l'.length = l.length ∧ ∀ k a, l[k]? = some a → ∃ b, l'[k]? = some b ∧ R a b := by
+    ∃ l' : List γ, l'.length = l.length ∧ ∀ (k : Nat) a, l[k]? = some a → ∃ b, l'[k]? = some b ∧ R a b := by
   intro l
   induction l with
   | nil => intro _; exact ⟨[], rfl, fun k a h => by simp at h⟩
@@ -222,5 +223,56 @@ theorem exists_list_rel {β γ : Type} (R : β → γ → Prop) : ∀ (l : List 
     | succ k => simp at hk; obtain ⟨b, hb, hR⟩ := hys k a hk; exact ⟨b, by simpa using hb, hR⟩
 
 end loop
+
+/-! ## `PartG` -/
+
+/-- **the row loop of `apply_gate` preserves `HasDual`** (generated tables, ℚ(ζ₈), every `n`) -/
+theorem partG (n : Nat) : PartG n := by
+  intro g bits t t1 hvalid hwf hn hdual hok
+  have ha := Q8.lawful
+  have hs := lawfulSimQ8
+  have hp := Q1t.Proofs.ConjQ8.prims_exact_Q8
+  obtain ⟨hw, hstab, hvb, hlen⟩ := hvalid
+  have te := term_exact tblG ncG hp Q1t.Proofs.ConjEmbed.embed_exact g hw hstab
+  have hM : WF (2 ^ bits.length) (2 ^ bits.length) (specMatrix g : LMat Q8) := by rw [hlen]; exact te.wf
+  have hrule : RuleExact Empty (specMatrix g : LMat Q8) bits.length (conjugateT tblG ncG g) := by
+    rw [hlen]; exact te.rule
+  have hU : IsUnitary Empty n (embed n bits (specMatrix g : LMat Q8)) :=
+    Q1t.Proofs.ConjEmbed.embed_unitary ha n bits hvb _ (by
+      rw [hlen]; exact Q1t.Proofs.ConjUnitary.isUnitary_iff_unitary.2 (Q1t.Proofs.ConjUnitary.spec_unitary ha g hw))
+  have hiso := unitary_normSqSum ha hs (Nat.two_pow_pos n) (Q1t.Proofs.ConjUnitary.isUnitary_iff_unitary.1 hU)
+    (ket0 n : List Q8) (by simp [ket0])
+  have hE : WF (2 ^ n) (2 ^ n) (embed n bits (specMatrix g : LMat Q8)) := Q1t.Proofs.Route.embed_wf _ _ _
+  have hnz : NZ (mulVec (embed n bits (specMatrix g : LMat Q8)) (ket0 n : List Q8)) :=
+    nz_of_weight hs q8_one_ne_zero _ ⟨1, by rw [hiso, normSqSum_ket0' ha hs, one_mul]⟩
+  obtain ⟨w1, w2, w3⟩ := hwf
+  subst hn
+  obtain ⟨hsh1, hdone, _⟩ := conjRows_rel (A := Empty) hvb hM hrule (List.range t.n) t t1 List.nodup_range
+    (fun i hi => List.mem_range.mp hi) ⟨rfl, w1, w2⟩ (fun k _ r hr => w3 r (List.mem_of_getElem? hr)) hok
+  obtain ⟨ds, hdl, hdlen, hdsp⟩ := hdual
+  obtain ⟨ds', hl', hds'⟩ := exists_list_rel (Rel Empty (embed t.n bits (specMatrix g : LMat Q8)) t.n) ds
+    (fun d hd => rel_image hvb hM hrule d (hdlen d hd))
+  refine ⟨ds', by rw [hl', hdl, hsh1.1], ?_, ?_⟩
+  · intro d' hd'
+    obtain ⟨k, hk, rfl⟩ := List.getElem_of_mem hd'
+    have hk' : k < ds.length := by rw [← hl']; exact hk
+    obtain ⟨b, hb, hR⟩ := hds' k _ (List.getElem?_eq_getElem hk')
+    rw [List.getElem?_eq_getElem hk] at hb
+    cases hb
+    rw [hsh1.1]; exact hR.2.1
+  · intro i k r1 d' hr1 hd'
+    have hi : i < t.n := by
+      have := (List.getElem?_eq_some_iff.mp hr1).1
+      rw [hsh1.2.1] at this; exact this
+    obtain ⟨r, r1', h1, h2, hrel⟩ := hdone i (List.mem_range.mpr hi)
+    rw [hr1] at h2; cases h2
+    have hk : k < ds'.length := (List.getElem?_eq_some_iff.mp hd').1
+    have hk' : k < ds.length := by rw [← hl']; exact hk
+    obtain ⟨b, hb, hR⟩ := hds' k _ (List.getElem?_eq_getElem hk')
+    rw [hd'] at hb; cases hb
+    obtain ⟨l1, l2, f1, i1⟩ := hrel
+    obtain ⟨l3, l4, f2, i2⟩ := hR
+    rw [← sp_of_intertwines ha hE l1 l3 l2 l4 i1 i2 (ket0 t.n : List Q8) (by simp [ket0]) hnz]
+    exact hdsp i k r _ h1 (List.getElem?_eq_getElem hk')
 
 end Q1t.Proofs.DetPlan
